@@ -413,4 +413,54 @@ let () =
           Printf.sprintf "r %s p %s s %s" rr pr s)
       done)
 
+
+(* ------------------------------------------------------------------ oracle streams *)
+
+let corpus_dir () =
+  try Sys.getenv "GV_CORPUS" with Not_found ->
+    Filename.concat (Filename.dirname Sys.executable_name) "../corpus/sections"
+
+let variants () : string array =
+  let a = try Sys.readdir (corpus_dir ()) with _ -> [||] in
+  Array.sort compare a; a
+
+(* c18.write be version format address_size seed nunits ndies flags cfi ncie nfde
+   flags: 1 root low_pc | 2 strp names | 4 line programs | 8 range lists | 16 location lists |
+          32 cross-unit DebugInfoRef | 64 DW_OP_addr in expressions | 128 line_strp (v5) |
+          256 supplementary-file refs | 512 macinfo/macro refs
+   cfi:   0 none | 1 .debug_frame | 2 .eh_frame absptr | 3 .eh_frame pcrel|sdata4 | 4 .eh_frame absptr + personality/LSDA *)
+let write_case emit be ver fmt asz seed nunits ndies flags cfi ncie nfde =
+  emit (Printf.sprintf "c18.write %s %d %d %d %d %d %d %d %d %d %d" (bit be) ver fmt asz seed nunits ndies flags cfi ncie nfde) "ok" "ok"
+
+let () =
+  register "c18.write" ~doc:"units / line programs / range+location lists / frame tables written twice by gimli::write (EndianVec with constants, recording RelocateWriter with symbols): applied == direct, recorded sites == sites the readers relocate, RelocateReader on raw bytes == plain reader on applied bytes (2 symbol assignments x RELA/REL)"
+    (fun ~seed ~n emit ->
+      (* grid: every version x format x address size x byte order x frame flavour, all features on *)
+      let k = ref 0 in
+      List.iter (fun be -> List.iter (fun ver -> List.iter (fun fmt -> List.iter (fun asz -> List.iter (fun cfi ->
+        incr k;
+        (* the two known-finding flavours (1, 3) only once per version x byte order *)
+        if (cfi <> 1 && cfi <> 3) || (fmt = 4 && asz = 8) then begin
+          write_case emit be ver fmt asz (seed * 7919 + !k) 2 4 1023 cfi 2 3;
+          write_case emit be ver fmt asz (seed * 7919 + !k) 1 3 (1022 land (lnot 1)) cfi 1 2
+        end)
+        [0; 1; 2; 3; 4]) [4; 8]) [4; 8]) [2; 3; 4; 5]) [false; true];
+      let r = mk_rng seed in
+      for i = 1 to n do
+        let be = rand_bool r in
+        let ver = 2 + rand_int r 4 in
+        let fmt = if rand_int r 4 = 0 then 8 else 4 in
+        let asz = if rand_int r 3 = 0 then 4 else 8 in
+        let flags = match rand_int r 4 with 0 -> 1023 | 1 -> rand_int r 1024 | _ -> rand_int r 1024 lor 4 in
+        let cfi = match rand_int r 40 with 0 -> 1 | 2 | 3 | 4 | 5 | 6 | 7 | 8 | 9 -> 2 | 10 -> 3 | 11 | 12 | 13 | 14 | 15 | 16 -> 4 | _ -> 0 in
+        write_case emit be ver fmt asz (seed * 1000003 + i) (1 + rand_int r 3) (rand_int r 9) flags cfi (1 + rand_int r 3) (rand_int r 6)
+      done);
+  register "c18.corpus" ~doc:"compiler-built corpus sections read through RelocateReader with the identity relocation vs plainly; then a third of the logged address sites perturbed (implicit/explicit addends) and RelocateReader on raw bytes vs plain reader on applied bytes"
+    (fun ~seed ~n emit ->
+      let vs = variants () in
+      if Array.length vs = 0 then emit "c18.corpus missing 0 0" "ok" "ok" else
+      for j = 0 to max 0 (n - 1) do
+        Array.iter (fun v -> emit (Printf.sprintf "c18.corpus %s %d %d" v (seed * 31 + j) (if n > 4 then 20000 else 1500)) "ok" "ok") vs
+      done)
+
 let init () = ()
